@@ -6,6 +6,7 @@
 #include <etl/_concepts/emulation.hpp>
 #include <etl/_contracts/check.hpp>
 #include <etl/_cstddef/ptrdiff_t.hpp>
+#include <etl/_cstddef/size_t.hpp>
 #include <etl/_iterator/begin.hpp>
 #include <etl/_iterator/end.hpp>
 #include <etl/_utility/forward.hpp>
@@ -21,7 +22,7 @@ constexpr auto index(Range&& rng, Index&& i) noexcept -> decltype(auto)
     using etl::begin;
     using etl::end;
 
-    TETL_PRECONDITION(static_cast<etl::ptrdiff_t>(i) < (end(rng) - begin(rng)));
+    TETL_PRECONDITION(static_cast<etl::size_t>(i) < static_cast<etl::size_t>(end(rng) - begin(rng)));
     return begin(etl::forward<Range>(rng))[etl::forward<Index>(i)];
 }
 } // namespace etl::detail
